@@ -291,6 +291,8 @@ Section Loop.
       exists x, c_preds (getc (s_g st) y) = [x] /\ In x T /\
                 c_change (getc (s_g st) y) = c_change (getc G0 x) /\
                 c_desc (getc (s_g st) y) = c_desc (getc G0 x);
+    li_pred : forall y x, n0 <= y < length (s_g st) -> c_preds (getc (s_g st) y) = [x] ->
+      In x done /\ pm_get (s_pm st) x = Some (Rewritten y);
   }.
 
   Lemma LI_init : LI [] s0.
@@ -302,6 +304,7 @@ Section Loop.
     - intros h Hh _. unfold Scope, scope. apply ancs_spec; [apply (j_wf _ J0)|].
       exists h. split; [apply in_or_app; now left|constructor].
     - intros y Hy. fold G0 n0 in Hy. lia.
+    - intros y x Hy. fold G0 n0 in Hy. lia.
   Qed.
 
   Lemma pm_nd_set_other pm k r z : z <> k -> pm_nd (pm_set k r pm) z = pm_nd pm z.
@@ -414,6 +417,7 @@ Section Loop.
           -- apply St. apply Snp. rewrite Eq. rewrite (li_old _ _ HLI x Lx) in Hq. exact Hq.
         * apply St. eapply (li_parents _ _ HLI); eauto.
       + intros k Hk. apply in_app_or in Hk. destruct Hk as [Hk|[<-|[]]]; [now apply (li_done_T _ _ HLI)|assumption].
+      + intros y x' Hy Hp. destruct (li_pred _ _ HLI y x' Hy Hp) as [A B]. split; [apply in_or_app; now left|assumption].
     - set (np' := if o_simplify o then filter (fun p => memn p (heads_of (pg (s_g st)) np)) np else np) in *.
       assert (Sub : forall q, In q np' -> In q np).
       { unfold np'. destruct (o_simplify o); [|auto]. intros q Hq. apply filter_In in Hq. apply Hq. }
@@ -451,6 +455,8 @@ Section Loop.
         * apply (li_bms _ _ HLI).
         * apply (li_wcs _ _ HLI).
         * apply (li_ident _ _ HLI).
+        * intros y x' Hy Hp. destruct (li_pred _ _ HLI y x' Hy Hp) as [A B]. split; [apply in_or_app; now left|].
+          rewrite pm_get_set_other; [assumption|intros ->; contradiction].
       + (* rebased copy *)
         apply Ok_inj in H. subst st'.
         set (c' := mk_commit np' (c_change c) (c_desc c) (if N.eqb orc 2 then negb (c_empty c) else c_empty c) [x]) in *.
@@ -497,6 +503,12 @@ Section Loop.
         * intros y Hy. rewrite Lw in Hy. rewrite Gw. destruct (Nat.eq_dec y (length (s_g st))) as [->|Ny].
           -- rewrite getc_app_new. exists x. cbn [c' c_preds c_change c_desc]. auto.
           -- rewrite getc_app_old by lia. apply (li_ident _ _ HLI). lia.
+        * intros y x' Hy Hp. rewrite Lw in Hy. rewrite Gw in Hp. rewrite Pw.
+          destruct (Nat.eq_dec y (length (s_g st))) as [->|Ny].
+          -- rewrite getc_app_new in Hp. cbn [c' c_preds] in Hp. injection Hp as <-.
+             split; [apply in_or_app; right; now left|apply pm_get_set_same].
+          -- rewrite getc_app_old in Hp by lia. destruct (li_pred _ _ HLI y x' ltac:(lia) Hp) as [A B].
+             split; [apply in_or_app; now left|]. rewrite pm_get_set_other; [assumption|intros ->; contradiction].
   Qed.
 
   (** ** Orders that respect the dependencies the implementation computes: a parent that is to
